@@ -4,7 +4,7 @@ import gen_http as G
 
 HARNESS = "rx_driver"
 LEAN_MODULES = ["ViaProofs.C05"]
-LEMMA_MODULES = ['ViaProofs.Frag.Lines', 'ViaProofs.Frag.Headers', 'ViaProofs.Frag.Compose', 'ViaProofs.Trans.RL', 'ViaProofs.Trans.SL', 'ViaProofs.Trans.FL', 'ViaProofs.Trans.CH', 'ViaProofs.Trans.MH', 'ViaProofs.Trans.CK']
+LEMMA_MODULES = ['ViaProofs.Frag.Lines', 'ViaProofs.Frag.Headers', 'ViaProofs.Frag.Compose', 'ViaProofs.Trans.RL', 'ViaProofs.Trans.SL', 'ViaProofs.Trans.FL', 'ViaProofs.Trans.CH', 'ViaProofs.Trans.MH', 'ViaProofs.Trans.CK', 'ViaProofs.Trans.RQ', 'ViaProofs.Trans.RR', 'ViaProofs.Trans.RS']
 REQUIRED_THEOREMS = ['Via.RR.receive_suffix', 'Via.RR.receive_progress', 'Via.RR.ok_init', 'Via.RR.ok_step', 'Via.RR.readLoop_done', 'Via.RS.receive_suffix', 'Via.RS.receive_progress', 'Via.RS.ok_init', 'Via.RS.ok_step', 'Via.RS.readLoop_done']
 LEVEL = "proof"
 LEVEL_TEXT = ('PROOF of termination and index safety on the model: every receive consumes a prefix of its input (no index outside the buffer), makes progress or reports INVALID, and the per-read loops of server and client end within |read|+1 steps (well-founded recursion, no fuel); translated parsers as C01. PARTIAL for memory safety of the C++ itself: the same inputs run under ASan/UBSan/_GLIBCXX_DEBUG with aborts, hangs (watchdog) and escaped exceptions as compared outputs, including through the real http_client.')
@@ -13,7 +13,7 @@ RULE = ("byte streams: uniformly random octets, random octets over an HTTP-ish a
         "fed to request and response receivers of every configuration and container in random fragments; oracle: no "
         "sanitizer abort / exception, every read ends with nothing left unless INVALID, receive() calls per read <= bytes+2; "
         "non-trivial = the stream is not a valid message; distinct = distinct (config, stream, partition)")
-TRUSTED_BASE = ["tools/cxx2lean.py (translator of the parse_char / parse state machines and of message_headers::parse and rx_chunk::parse: RL, SL, FL, CH from the current C++ into Lean; the model is proved equal to the translation in ViaProofs/Trans)", "Lean 4.33 kernel", "axioms: propext, Classical.choice, Quot.sound at most",
+TRUSTED_BASE = ["tools/cxx2lean.py + tools/cxx2lean_rx.py (translator of the parse_char / parse state machines, message_headers::parse, rx_chunk::parse, rx_request / rx_response::parse and request_receiver / response_receiver::receive + clear from the current C++ into Lean; the model is proved equal to the translation in ViaProofs/Trans; NOT translated and mapped by name to model functions: the header look-ups of message_headers (find, content_length, is_chunked, expect_continue, close_connection))", "Lean 4.33 kernel", "axioms: propext, Classical.choice, Quot.sound at most",
                 "rx_driver built with ASan + UBSan + _GLIBCXX_DEBUG: memory safety of the C++ is observed, not proved",
                 "via_model driver"]
 ASSUMPTIONS = ["termination, progress and index arithmetic are theorems about the model; that the C++ computes the same function is "
